@@ -8,7 +8,8 @@ from collections import Counter
 PKG = "network/transport/v2"
 HARNESS = ["network/transport/v2/zz_verif_c07_test.go", "network/transport/v2/zz_verif_c07_gen_test.go",
            "network/transport/v2/zz_verif_c15_test.go", "network/transport/v2/gossip/zz_verif_export_c07.go",
-           "network/transport/v2/zz_verif_c07_disp_test.go"]
+           "network/transport/v2/zz_verif_c07_disp_test.go", "network/transport/v2/zz_verif_c07_addr_test.go",
+           "network/transport/grpc/zz_verif_export_c07.go"]
 
 REQUIRED = ["safety_any_schedule", "unsolicited_responses_change_no_dag", "chunks_lossless", "stable_when_equal",
             "pull_round_result", "stuck_both_ways_same", "round_progress", "converges", "stable_after_convergence", "rounds_are_schedules", "range_reply_sorted_prefixclosed",
@@ -17,7 +18,9 @@ REQUIRED = ["safety_any_schedule", "unsolicited_responses_change_no_dag", "chunk
             "iblt_bucket_indices_distinct_in_range", "iblt_subtract_represents_difference", "iblt_decode_contract", "iblt_garbage_and_size_mismatch_err", "modelled_iblt_satisfies_DC", "liveness_hypotheses_with_modelled_iblt",
             "fact_iblt_constants", "fact_iblt_bucket_indices_shape", "fact_iblt_decode_shape", "fact_iblt_bucket_ops",
             "dispatcher_refines_handler_sequence", "dispatcher_safety_any_goroutine_schedule", "full_channel_drop_is_loss", "handle_error_classification",
-            "list_handler_drains_in_order", "fact_dispatch_table_routes", "fact_dispatcher_shape"]
+            "list_handler_drains_in_order", "fact_dispatch_table_routes", "fact_dispatcher_shape",
+            "fact_send_gossip_addressing", "fact_send_gossip_query_interpreted", "fact_connection_lookup_shape", "gossip_addressed_to_queue_owner",
+            "gossip_reaches_connected_owner", "did_addressing_starves_a_peer", "empty_query_selects_nothing"]
 
 
 IBLT_PKG = "network/dag/tree"
@@ -236,6 +239,97 @@ def run_disp(ctx, binary):
     ctx.cov["dispatcher_leg"] = {"ops": len(impl), **dict(stats)}
 
 
+def is_addr_replay(path):
+    try:
+        with open(path) as f:
+            return '"op":"addr"' in f.read(200)
+    except OSError:
+        return False
+
+
+def run_addr(ctx, binary):
+    """the REAL (*protocol).sendGossip on the REAL grpc.connectionList / predicates / transport.Peer.Key vs NutsModel/C07/Addr.lean
+    (query REGENERATED) + model-free oracles: the gossip of a peer's queue goes to a connected connection of exactly that peer,
+    a connected owner is found, the queue is reported sent only if that connection took the message"""
+    env = {"VERIF_CORPUS": os.path.join(os.path.dirname(os.path.dirname(os.path.abspath(__file__))), "harness", "corpus", "C07")}
+    if ctx.replay:
+        env["VERIF_REPLAY"] = os.path.abspath(ctx.replay)
+    out = os.path.join(ctx.scratch, "out_addr")
+    rc, log, out = ctx.run_harness(binary, "TestVerifC07Addr$", env, outdir=out, timeout=600)
+    if rc != 0:
+        ctx.oblige("addressing-harness-runs", False, log[-1500:])
+        return
+    ops_p, impl_p, model_p = (os.path.join(out, x) for x in ("ops.jsonl", "impl.out", "model.out"))
+    ok, err = ctx.model("C07", ops_p, model_p)
+    ctx.oblige("addressing-model-driver-runs", ok, err[-500:])
+    impl, model, bad = ctx.compare(impl_p, model_p)
+    ops = ctx.read_lines(ops_p)
+    n_bad, per_sig, stats = 0, Counter(), Counter()
+
+    def viol(sig, what, i):
+        nonlocal n_bad
+        n_bad += 1
+        per_sig[sig] += 1
+        if per_sig[sig] <= 2:
+            ctx.violation(sig, what, f"addr-{sig.split(':')[1]}-{i}.jsonl", ops[i] + "\n")
+
+    rx = re.compile(r"^addr pk=(.*) target=(.*) cleared=(true|false) owners=\[([0-9,]*)\]$")
+    for i, l in enumerate(impl):
+        if i >= len(ops):
+            break
+        o = json.loads(ops[i])
+        m = rx.match(l)
+        if not m:
+            viol("C07:gossip-addressing-panic" if "panic:" in l else "C07:gossip-addressing-malformed", f"sendGossip: {l[:300]}", i)
+            continue
+        pk, target, cleared, owners = m.group(1), m.group(2), m.group(3) == "true", [int(x) for x in m.group(4).split(",") if x]
+        conns = o.get("conns") or []
+        if target == "none":
+            stats["no-connection" if not owners else "owner-missed"] += 1
+            if owners:
+                viol("C07:gossip-starved-connected-peer-not-found", f"the queue of {pk} ticked, connection(s) {owners} of that peer are connected, "
+                     f"but sendGossip found no connection (the peer never hears gossip: no convergence): {l[:300]}", i)
+            if cleared:
+                viol("C07:gossip-queue-cleared-without-send", f"sendGossip sent nothing but reported success (the queue is cleared, the refs are never announced): {l[:300]}", i)
+            continue
+        if target.startswith("multi"):
+            viol("C07:gossip-sent-more-than-once", f"one tick sent several Gossip messages: {l[:300]}", i)
+            continue
+        idx, _, tk = target.partition(":")
+        idx = int(idx)
+        c = conns[idx] if idx < len(conns) else {}
+        same_did_elsewhere = any(j != idx and x.get("did") == c.get("did") for j, x in enumerate(conns))
+        stats["sent" + (":first-entry" if idx == 0 else ":later-entry") + (":did-shared" if same_did_elsewhere else "")] += 1
+        if tk != pk:
+            viol("C07:gossip-sent-to-other-peer", f"the Gossip message of the queue of peer {pk} (its refs, and the clearing of ITS queue) went to the "
+                 f"connection of peer {tk}; the queue's peer is starved: {l[:300]}", i)
+        elif not c.get("conn"):
+            viol("C07:gossip-sent-on-disconnected-connection", f"sendGossip used a connection that is not connected: {l[:300]}", i)
+        elif not owners or idx != owners[0]:
+            viol("C07:gossip-not-first-connected-owner", f"sendGossip used connection {idx}, the connected connections of the peer are {owners}: {l[:300]}", i)
+        if cleared != bool(c.get("ok")):
+            stats["send-failed"] += 0
+            viol("C07:gossip-queue-cleared-iff-sent", f"Send on connection {idx} {'succeeded' if c.get('ok') else 'failed'} but sendGossip returned {cleared}: {l[:300]}", i)
+        if not c.get("ok"):
+            stats["send-failed"] += 1
+    ctx.oblige("oracle:gossip-goes-to-a-connected-connection-of-the-queue-peer,owner-found,cleared-iff-sent(impl)", n_bad == 0, f"{n_bad} problems")
+    if not ctx.replay:
+        miss = [k for k in ("no-connection", "sent:first-entry", "sent:later-entry:did-shared", "send-failed") if not stats[k]]
+        ctx.oblige("generator-reaches-the-addressing-outcomes", not miss, f"not reached: {miss}")
+    if bad:
+        i = bad[0]
+        detail = f"addressing leg: first differing line {i}\nop   : {ops[i][:400] if i < len(ops) else None}\nimpl : {impl[i][:500] if i < len(impl) else None}\nmodel: {model[i][:500] if i < len(model) else None}"
+        ctx.oblige("correspondence:addressing-model=impl", False, f"{len(bad)} of {len(impl)} lines differ; " + detail[:900])
+        if n_bad == 0:
+            with open(os.path.join(ctx.replay_dir(), "addr-correspondence.jsonl"), "w") as f:
+                f.write(ops[i] + "\n" if i < len(ops) else "")
+            ctx.unproved(["correspondence C07 addressing (protocol.go sendGossip, grpc predicate.go / connection_list.go get != NutsModel/C07/Addr.lean)"],
+                         detail + f"\nreplay ops: {ctx.replay_dir()}/addr-correspondence.jsonl")
+    else:
+        ctx.oblige("correspondence:addressing-model=impl", True, f"{len(impl)} lines equal")
+    ctx.cov["addressing_leg"] = {"ops": len(impl), **dict(stats)}
+
+
 def scenario_slices(ops):
     """index of the universe header and (first,last) op index of each scenario"""
     header = None
@@ -311,8 +405,12 @@ def run(ctx):
     if ctx.replay and is_disp_replay(ctx.replay):
         run_disp(ctx, binary)
         return
+    if ctx.replay and is_addr_replay(ctx.replay):
+        run_addr(ctx, binary)
+        return
     if not ctx.replay:
         run_disp(ctx, binary)
+        run_addr(ctx, binary)
     env = {}
     if ctx.replay:
         env["VERIF_REPLAY"] = os.path.abspath(ctx.replay)
